@@ -867,6 +867,12 @@ def order(ctx):
                 continue
             n += 1
             bad = []
+            if side == 'read':
+                for fb in F.family(root.key):
+                    for c in fb.calls(r'LinkedList::<[^>]*>::push_front$', r'VecDeque::<[^>]*>::push_front$'):
+                        bad.append(c)
+                    for c in fb.calls(r'Vec::<[^>]*>::insert$'):
+                        bad.append(c)
             for fb in F.family(root.key):
                 for c in fb.calls(*REORDER):
                     # sorting the entries of an unordered map for determinism is harmless
